@@ -13,7 +13,14 @@ RULE = ("stream http: real logins at the real daemon (config-file provider, scry
         "another key, arbitrary strings, unreadable Authorization headers, admin token verbatim / prefix / extension / other "
         "case, all on a gated probe route over the Unix socket (mapped and unmapped peer) and loopback TCP; damaged, foreign and "
         "re-encoded tokens on every row of the route table; user names differing by case / white space / NFKC and wrong, padded "
-        "and normalised passwords; the audit actor of accepted commands. The model is the provider chain with its fall-through "
+        "and normalised passwords; users whose configured password_hash is not the text of a hash (locked '!', empty, the right hash "
+        "truncated / one character longer / in upper-case hex / 64 non-hex characters) or is the well-formed hash of another user's "
+        "password (own salt, copied salt), tried with the password whose hash was mangled, another user's, the stored string, the empty "
+        "and a 4000-character password, every token handed out is used; the neighbourhood of the admin token and of a session token "
+        "(every proper prefix / sampled lengths, one more character, more text, one changed character front / middle / end, other "
+        "case, white space around it, nothing) on /api/v1/authorized, POST /api/v1/cas, POST /api/v1/cas/{ca}/id and POST /auth/login, "
+        "on both transports, with the config-file provider primary (admin token = legacy arm; unmapped and mapped peer) and with the "
+        "admin-token provider primary; the audit actor of accepted commands. The model is the provider chain with its fall-through "
         "and the symbolic session cache; the oracle judges observed logins by the full-strength login predicate")
 
 
@@ -30,6 +37,11 @@ def check(ctx):
         "symbolic cryptography: a token verifies under a key iff it was sealed under that key; scrypt hashes are equal iff "
         "their inputs are (ChaCha20-Poly1305 and scrypt strength assumed)",
         "trim + NFKC is taken from the unicode-normalization crate (the harness passes its graph on the strings of a case)",
+        "a configured password_hash that is not the lower-case hex text of a 32-byte value (junk) equals no computed hash; the text of "
+        "another hash term equals the computed one iff password, user name and salt are equal (symbolic scrypt); the configured salt "
+        "of every user is valid hex (krill unwraps hex::decode(salt) at login: a non-hex salt panics there - a C16 matter, not modelled)",
+        "a near miss of a session token (its base64 text shortened, extended, changed in one character or re-cased) is not the canonical "
+        "encoding of a payload sealed under the instance key (AEAD assumption); white space around a token is removed by the header parsing",
         "session expiry is not modelled: the config-file provider issues sessions without expiry and never checks it",
         "the peer of the Unix socket is the user running the check ('mapped' / 'unmapped' decided by the configuration); when the "
         "check runs as root (it does here; otherwise the case c20-unixcred is skipped with a message) the connecting thread's "
@@ -56,7 +68,10 @@ MANIFEST = {
             "(truncated, bit-flipped, re-encoded, foreign-key tokens as special cases) and refused on every gated route with no "
             "server call, login_iff exactly as the code decides, login_identity at full strength (whoever logs in is a configured user "
             "whose own stored hash matches the password sent - for every configuration and every name/password pair), the audit "
-            "actor is the authenticated id. The pinned tree violated login_identity (two look-ups; finding F-C20-1, fixed by "
+            "actor is the authenticated id; junk_hash_never_logs_in (an entry whose stored hash is not the text of a hash admits no password); "
+            "get_bearer_token_spec and near_miss_same_iff (of the neighbourhood of any credential text - prefixes, extensions, one changed "
+            "character, other case, padding, nothing - exactly the members that only add white space are the same credential), "
+            "near_miss_rejected (all others authenticate nobody, both provider configurations), authenticates_iff_admin_token. The pinned tree violated login_identity (two look-ups; finding F-C20-1, fixed by "
             "2ee45739): the old function is kept as a labelled counter-model with the witness, and the corpus replays the "
             "confusing logins on the real daemon on every run.",
     "note": "Cryptography is symbolic (term equality); the correspondence uses the real ChaCha20-Poly1305/scrypt code of the daemon "
